@@ -175,6 +175,11 @@ where
         Ok(b) => b,
         Err(_) => return "err".into(),
     };
+    // the parsed object serialises back to the wire bytes it was made from, byte for byte (whatever the ephemeral key's encoding)
+    let wire = bx.to_vec();
+    if wire != c {
+        return format!("mismatch from_sealed_bytes(x).to_vec() != x at byte {}", wire.iter().zip(c.iter()).position(|(a, b)| a != b).unwrap_or(wire.len().min(c.len())));
+    }
     let dec: Result<Vec<u8>, _> = bx.unseal(&kp);
     match dec {
         Ok(d) => ok(&d),
